@@ -32,6 +32,8 @@ join = UFn('path_join', [Dir, FName], CkPath, 'os.path.join(dir, name): injectiv
 gda_of = UFn('gda_path', [CkPath], CkPath, 'path + MP_ARRAY_POSTFIX')
 has_prefix = UFn('matches_prefix', [FName, Prefix], BOOL, "PurePath(c).match(f'{prefix}*')")
 is_gda = UFn('is_gda_name', [FName], BOOL, "PurePath(c).match(f'*{MP_ARRAY_POSTFIX}')")
+is_tmp_name = UFn('is_tmp_name', [FName, Prefix], BOOL, "PurePath(c).match(f'{prefix}tmp')")
+is_orbax_tmp = UFn('is_orbax_tmp_name', [FName], BOOL, "PurePath(c).match(f'*{ocp.utils.TMP_DIR_SUFFIX}*')")
 io_exists = UFn('io_exists', [CkPath], BOOL, 'io.exists(path)')
 listdir = UFn('listdir', [Dir], Names, '_allowempty_listdir(dir): the names in the directory, each once')
 neg_inf = UFn('neg_inf', [], REAL, "-float('inf'), as a real smaller than every step minus every keep_every_n_steps")
@@ -45,6 +47,10 @@ def _match(ex, v, a, kw):
     return ex.call_value(has_prefix, [v, p.parts[0]], {})
   if isinstance(p, FString) and len(p.parts) == 2 and p.parts[0] == '*':
     return ex.call_value(is_gda, [v], {})
+  if isinstance(p, FString) and len(p.parts) == 2 and p.parts[1] == 'tmp' and isinstance(p.parts[0], SV):
+    return ex.call_value(is_tmp_name, [v, p.parts[0]], {})
+  if isinstance(p, FString) and len(p.parts) == 3 and p.parts[0] == '*' and p.parts[2] == '*':
+    return ex.call_value(is_orbax_tmp, [v], {})
   raise OutsideSubset('PurePath.match with another pattern')
 
 
@@ -246,3 +252,34 @@ save_main = function(
     "implies(has_mpa, ncalls('_save_commit') == 0)",
   ],
   bindings=CB3, props=('C11',))
+
+# ---- latest_checkpoint: the LAST element of the (naturally sorted) checkpoint listing, None for an empty directory -----------
+DirT, PrefixT = Dir, Prefix
+all_ckpts = UFn('all_checkpoints', [DirT, PrefixT], Paths, '_all_checkpoints(ckpt_dir, prefix): sorted by numeric step, temporary files excluded')
+PathOpt = Union('CheckpointPathOrNone', [Ctor('NoCkpt', [], pytypes=('NoneType',), is_const=None), Ctor('SomeCkpt', [('path', CkPath)], pytypes=('str',), payload='path')])
+latest = function(
+  F + '::latest_checkpoint', params=[('ckpt_dir', DirT), ('prefix', PrefixT)], returns=PathOpt,
+  ensures=["implies(len(all_checkpoints(ckpt_dir, prefix)) == 0, result is None)",
+           "implies(len(all_checkpoints(ckpt_dir, prefix)) > 0, is_(result, 'SomeCkpt') and result.path == all_checkpoints(ckpt_dir, prefix)[len(all_checkpoints(ckpt_dir, prefix)) - 1])"],
+  bindings={'_all_checkpoints': all_ckpts}, modifies=[], props=('C11',))
+latest.defaults = {'prefix': 'checkpoint_'}
+
+# ---- _all_checkpoints: exactly the committed checkpoints of this prefix (no tmp file, no _gda directory, no orbax tmp dir),
+# ---- in numeric step order ------------------------------------------------------------------------------------------------
+KEPT = "(matches_prefix(c, prefix) and not is_tmp_name(c, prefix) and not is_gda_name(c) and not is_orbax_tmp_name(c))"
+all_checkpoints = function(
+  F + '::_all_checkpoints', params=[('ckpt_dir', Dir), ('prefix', Prefix)], returns=Paths,
+  requires=['forall(Int, Int, lambda i, j: implies(0 <= i and i < j and j < len(listdir(ckpt_dir)), listdir(ckpt_dir)[i] != listdir(ckpt_dir)[j]))'],
+  ensures=[
+    # every returned path is a directory entry that passes the four filters ...
+    f"forall(Int, lambda r: implies(0 <= r and r < len(result), exists(Int, lambda i: 0 <= i and i < len(listdir(ckpt_dir)) and result[r] == path_join(ckpt_dir, listdir(ckpt_dir)[i]) and "
+    f"{KEPT.replace('(c', '(listdir(ckpt_dir)[i]')})))",
+    # ... every such entry is returned ...
+    f"forall(Int, lambda i: implies(0 <= i and i < len(listdir(ckpt_dir)) and {KEPT.replace('(c', '(listdir(ckpt_dir)[i]')}, "
+    "exists(Int, lambda r: 0 <= r and r < len(result) and result[r] == path_join(ckpt_dir, listdir(ckpt_dir)[i]))))",
+    # ... in the natural (numeric step) order
+    "forall(Int, Int, lambda r, q: implies(0 <= r and r < q and q < len(result), not lt(result[q], result[r])))",
+  ],
+  bindings=dict(B, **{'os.fspath': Handler('os.fspath', lambda ex, a, kw: a[0], 'Pathlib -> str: identity on strings'),
+                      'ocp.utils.TMP_DIR_SUFFIX': Lit('.orbax-checkpoint-tmp-')}), props=('C11',))
+all_checkpoints.defaults = {'prefix': 'checkpoint_'}
